@@ -1,4 +1,8 @@
-import ErdosVerif.Model.Strl
+/-
+C20 — STRL compilation: every model solution is a valid space-time allocation.
+Property theorems over the model `ErdosVerif.Strl` (Model/Strl.lean, Model/StrlSem.lean).
+-/
+import ErdosVerif.Lemmas.StrlCap
 namespace ErdosVerif.C20
 open ErdosVerif.Strl
 
@@ -6,6 +10,40 @@ open ErdosVerif.Strl
 theorem objective_eq_utility (ctx : Ctx) (σ : Assign) (name : String) (cs : List Expr) :
     (populate ctx σ (.obj name cs)).utility = some ((compile ctx (.obj name cs)).objective σ) := by
   simp only [populate]
-  split <;> simp_all
+  split
+  · rename_i h
+    have h' : (compile ctx (.obj name cs)).objective σ = 0 := by simpa using h
+    rw [h']
+  · rfl
 
+/-- **Capacity.** For every tree whose leaf start times agree modulo the granularity
+(always the case for granularity 1), every assignment that satisfies the compiled model,
+every partition the context knows and every time `t`: what the placements read back by
+`populateResults` hold of the partition at `t`, plus what the Allocation leaves hold, is
+within the partition's quantity. -/
+theorem capacity_sound (ctx : Ctx) (name : String) (cs : List Expr) (σ : Assign)
+    (hg : 0 < ctx.gran) (hal : Aligned ctx.gran (.obj name cs))
+    (hfeas : (compile ctx (.obj name cs)).feasible σ = true)
+    (pid : Nat) (p : Partition) (hp : ctx.find pid = some p) (t : Nat) :
+    usageAt (populate ctx σ (.obj name cs)).placements pid t
+      + allocUsageAt pid t (.obj name cs) ≤ p.qty := by
+  obtain ⟨r, hr⟩ := hal
+  simp only [alignedTo] at hr
+  rw [compile_obj] at hfeas
+  simp only [MipModel.feasible, Bool.and_eq_true, List.all_eq_true] at hfeas
+  obtain ⟨hvars, hcons⟩ := hfeas
+  have hl := list_inv ctx σ pid t r p hg hp cs [] 0 hr hvars
+  have hm := mergeChildren_le (populateList ctx σ [] 0 cs) pid t hl.1
+  have hok := list_regs_ok ctx cs [] 0
+  generalize compileList ctx [] 0 cs = outs at hl hcons hok
+  have hcons' : ∀ c ∈ capConstrs (outs.flatMap (·.2.regs)), Constr.holds σ c = true :=
+    fun c hc => hcons c (List.mem_append_right _ hc)
+  have hcap : regSum σ pid (slotKey ctx.gran r t) (outs.flatMap (·.2.regs)) ≤ p.qty :=
+    cap_bound _ _ _ _ _ _ hp hok hcons'
+
+  rw [populate_obj_placements]
+  simp only [allocUsageAt]
+  have := hl.2
+  have := hm.2
+  omega
 end ErdosVerif.C20
